@@ -37,6 +37,13 @@ def _short(h, n=96):
     return h if len(h) <= n else h[:n] + "...(%d bytes)" % (len(h) // 2)
 
 
+def _verdict(c):
+    """Verify()'s answer; when the copy of the event that went through the relay's JSON decoder is judged differently,
+    a value that is no answer at all (10 + the copy's answer): model and oracle both reject it"""
+    r2 = c.get("res2")
+    return c["res"] if r2 is None or r2 == c["res"] else 10 + r2
+
+
 class C01(Prop):
     id = "C01"
     check_vo = "theories/Check/C01Check.vo"
@@ -62,6 +69,8 @@ class C01(Prop):
             "class of genuine U+FFFD and its neighbours; every fourth group is a sequence case: 2..5 events over one or two signed "
             "events (the event itself, possibly repeated, alterations after which Verify returns early or with an error, arbitrary "
             "alterations, in any order) verified one after the other in one process, each element judged as a single event is; "
+            "every event whose strings are valid UTF-8 is also written as JSON by encoding/json, read back by Event.UnmarshalJSON and "
+            "verified again: the decoded copy must be judged as the original is; "
             "before every case the real Verify runs once on a fixed good event so that a case's observation depends on the case alone; thorough adds the exhaustive sweep: every "
             "Unicode scalar value once, 4096 per event content; a case is one event or one sequence of events; non-trivial = distinct (alteration, event) resp. distinct sequence of them")
     trusted_base = COMMON_TRUSTED + [
@@ -106,7 +115,7 @@ class C01(Prop):
         return "(mkObs %s %s %s %s %s %s %s %s %s %s %s %s %s %s)" % (
             ev, ser, s(c.get("hser")), s(c.get("canon")), s(c.get("hcanon")),
             copt(c.get("idb"), s, "str"), copt(c.get("pkb"), s, "str"), copt(c.get("sgb"), s, "str"),
-            cbool(c["pkok"]), cbool(c["sgok"]), cbool(c["v"]), cZ(c["res"]), cbool(c["valid"]), cZ(c["expect"]))
+            cbool(c["pkok"]), cbool(c["sgok"]), cbool(c["v"]), cZ(_verdict(c)), cbool(c["valid"]), cZ(c["expect"]))
 
     # ---- bookkeeping
     def nontrivial_key(self, c):
